@@ -222,6 +222,21 @@ func (e *Env) restoreElemsUnder(cs *schema.Case, vm valueMap, val map[string]boo
 		}
 		switch ev.Kind {
 		case schema.KPosStore:
+			// `if token exists { out.F = cursor; advance } else { out.F = cursor }`: the position
+			// of an omitted token is that of what follows it (go/parser does the same for an
+			// implicit semicolon); nothing is emitted on this branch
+			if ev.Guard != "" && ev.Expr == "cursor" {
+				same := false
+				for k, o := range cs.Events {
+					if o.Kind == schema.KPosStore && o.Field == ev.Field && o.Guard != "" && (schema.NegGuard(o.Guard) == ev.Guard || schema.NegGuard(ev.Guard) == o.Guard) &&
+						k+1 < len(cs.Events) && cs.Events[k+1].Kind == schema.KAdvance && cs.Events[k+1].Guard == o.Guard {
+						same = true
+					}
+				}
+				if same {
+					continue
+				}
+			}
 			problems = append(problems, fmt.Sprintf("position store out.%s = %s is not directly followed by the cursor advance of its token", ev.Field, ev.Expr))
 		case schema.KLiteral:
 			problems = append(problems, fmt.Sprintf("applyLiteral(n.%s) is not followed by the string event for the same field", ev.Src))
